@@ -102,6 +102,7 @@ class AlgoState:
         if with_U:
             fields["U"] = self.U
         self.obj = SObj(cls_ref(ALGOS[name], name), fields, tag="self")
+        self.fields0 = dict(fields)   # entry values (a run mutates the object's fields in place)
         e = z3.Int("e!q")
         rng = lambda m: z3.ForAll([e], z3.Implies(z3.Select(m, e), z3.And(0 <= e, e < self.N)))
         # class validity: index ranges, S and P disjoint, U inside P
@@ -294,8 +295,16 @@ _s = z3.Int("s!w")
 def _nocapture(fn):
     """The specification predicates bind _q / _s internally: applying them to those very variables would capture."""
     def g(x):
-        if z3.is_expr(x) and (x.eq(_q) or x.eq(_s)):
-            raise ValueError("specification predicate applied to its own bound variable %s (variable capture)" % x)
+        if z3.is_expr(x):
+            seen, stack = set(), [x]
+            while stack:
+                e_ = stack.pop()
+                if e_.get_id() in seen:
+                    continue
+                seen.add(e_.get_id())
+                if e_.eq(_q) or e_.eq(_s):
+                    raise ValueError("specification predicate applied to a term mentioning its own bound variable %s (variable capture)" % e_)
+                stack.extend(e_.children())
         return fn(x)
     return g
 
@@ -340,3 +349,84 @@ class Specs:
     def gate_open(self, S, enable):
         A = self.A
         return z3.Or(enable, z3.ForAll([_s], z3.Implies(z3.Select(S, _s), depth(_s) == A.maxd)))
+
+
+# ----------------------------------------------------------------------------------------------
+# Bounded structural cross-check of the set-level proofs (thorough tier; also the fall-back when a changed body leaves the
+# set-level subset): the real method is executed WITHOUT loop summaries on every configuration of N = 3 designs (concrete
+# Python sets, every S/P/U assignment that is class-valid), the region predicates still uninterpreted, and the final sets
+# are compared with the same specification predicates instantiated on that configuration.  Labelled bounded: it confirms
+# the derived loop summaries of pyvc/setmode.py on small universes, it is never counted as a proof.
+# ----------------------------------------------------------------------------------------------
+def unrolled_transition(t, A, relpath, qualname, clause, S=None, P=None, U=None, result=None, N=3, without_contracts=(), enable=None):
+    import itertools
+    from pyvc import finite
+    from pyvc.libcalls import ConcSet
+    from pyvc.symexec import find_obj
+
+    dom = list(range(-1, N + 1))
+    has_U = "U" in A.obj.fields
+
+    def arr_of(members):
+        a = z3.K(I, z3.BoolVal(False))
+        for k in members:
+            a = z3.Store(a, z3.IntVal(k), z3.BoolVal(True))
+        return a
+    labels = "SPUN" if has_U else "SPN"
+    n_cfg = 0
+    goals_all = []
+    for lab in itertools.product(labels, repeat=N):
+        S0c = [k for k in range(N) if lab[k] == "S"]
+        P0c = [k for k in range(N) if lab[k] in "PU"]
+        U0c = [k for k in range(N) if lab[k] == "U"]
+        n_cfg += 1
+        sub = [(A.S0, arr_of(S0c)), (A.P0, arr_of(P0c)), (A.U0, arr_of(U0c)), (A.N, z3.IntVal(N))]
+        fields = dict(A.fields0)
+        fields.update({k: v for k, v in A.obj.fields.items() if k not in fields})
+        fields["S"], fields["P"] = ConcSet(S0c), ConcSet(P0c)
+        if has_U:
+            fields["U"] = ConcSet(U0c)
+        ds = SObj("DesignSpaceStub", {"confidence_regions": RegionList(A.REG0, z3.IntVal(N)), "cardinality": N,
+                                      "point_depths": ScalarMap(depth, z3.IntVal(N))}, tag="ds")
+        fields["design_space"] = ds
+        obj = SObj(A.obj.cls, fields, tag="self")
+        saved_pre = list(t.pre)
+        t.pre = [z3.simplify(z3.substitute(f, *sub)) for f in saved_pre]
+        removed = {k: t.contracts.pop(k) for k in without_contracts if k in t.contracts}
+        try:
+            paths = t.run(relpath, qualname, [], self_val=obj, setmode=False)
+        finally:
+            t.pre = saved_pre
+            t.contracts.update(removed)
+        exp = {"S": S, "P": P, "U": U}
+        olds = {"S": S0c, "P": P0c, "U": U0c}
+        for p in paths:
+            if p.kind != "return":
+                goals_all.append(z3.Implies(p.cond(), z3.BoolVal(False)))
+                continue
+            o = find_obj(p.st, obj.oid)
+            cs = []
+            for key in ("S", "P", "U"):
+                if key == "U" and not has_U:
+                    continue
+                fin = o.fields[key]
+                got = set(fin.vals) if isinstance(fin, ConcSet) else None
+                if got is None:
+                    cs.append(z3.BoolVal(False))
+                    continue
+                for k in range(N):
+                    if exp[key] is None:
+                        cs.append(z3.BoolVal((k in got) == (k in olds[key])))
+                    else:
+                        want = finite.expand(z3.substitute(exp[key](z3.IntVal(k)), *sub), dom)
+                        cs.append(z3.BoolVal(k in got) == want)
+            if result is not None:
+                got = set(p.value.vals) if isinstance(p.value, ConcSet) else (set(p.value) if isinstance(p.value, (list, set)) else None)
+                for k in range(N):
+                    want = finite.expand(z3.substitute(result(z3.IntVal(k)), *sub), dom)
+                    cs.append((z3.BoolVal(k in got) == want) if got is not None else z3.BoolVal(False))
+            if enable is not None:
+                cs.append(V.Bz(o.fields["enable_epsilon_covering"]) == finite.expand(z3.substitute(enable, *sub), dom))
+            goals_all.append(z3.Implies(p.cond(), z3.And(*cs)))
+    t.trusted.add("bounded cross-check: N = 3 designs, all %d class-valid S/P/U configurations, predicate answers symbolic" % n_cfg)
+    t.prove("%s[bounded: every configuration of %d designs, no loop summaries]" % (clause, N), z3.And(*goals_all), use_pre=False, kind="bounded")
